@@ -35,11 +35,11 @@ import (
 func init() {
 	kit.Register(&kit.Spec{
 		ID:     "C20",
-		Rule:   "op sequences over a real utils.History (capacity 3..10) per usage profile: indep (baseline: consecutive heights, one commit per height, independent changes per height, legal seeks), dep (dependent exact-inverse changes within one height), gap (non-consecutive heights), dup (several commits of one height, as Arbiters.ProcessBlock/forceChange do), temp (height-0 temporary changes as ProcessSpecialTxPayload does), temp2 (second temp round / empty block after temp), seekmix (RollbackTo while seeked, SeekTo after rollback), rbseek (RollbackSeekTo with externally restored state). distinct = distinct op trace; non-trivial = at least one judged rollback/seek to a lower height",
+		Rule:   "op sequences over a real utils.History (capacity 3..10) per usage profile: indep (baseline: consecutive heights, one commit per height, independent changes per height, legal seeks), dep (dependent exact-inverse changes within one height), gap (non-consecutive heights), dup (several commits of one height, as Arbiters.ProcessBlock/forceChange do), temp (height-0 temporary changes as ProcessSpecialTxPayload does), temp2 (second temp round / empty block after temp), seekmix (RollbackTo while seeked, SeekTo after rollback), rbseek (RollbackSeekTo with externally restored state), rbseektemp (the same with temporary changes pending). distinct = distinct op trace; non-trivial = at least one judged rollback/seek to a lower height",
 		Shards: func(tier string) int { return 8 },
 		Run:    runC20,
 		Require: []string{"op_append", "op_commit", "op_rollback_lower", "op_seek_back", "op_seek_forward", "op_commit_while_seeked",
-			"op_rollbackseek", "op_temp_commit", "capacity_overflow_sequences", "heights_with_dependent_changes",
+			"op_rollbackseek", "op_rollbackseek_with_pending_temp", "op_temp_commit", "capacity_overflow_sequences", "heights_with_dependent_changes",
 			"profile_indep_sequences_clean", "judged_rollback_at_capacity_limit", "multi_change_heights"},
 		Assumptions: []string{
 			"callers hand Append well-formed changes (rollback is the exact inverse of execute in its execution context, or the capture-at-Append idiom on an otherwise untouched variable)",
@@ -228,6 +228,9 @@ var c20Profiles = []c20Profile{
 	{name: "seekseq", seek: true, seekseq: true, weight: 2},
 	{name: "seekmix", seekmix: true, seek: true, weight: 2},
 	{name: "rbseek", rbseek: true, weight: 2},
+	// RollbackSeekTo while temporary (height-0) changes are pending: the owner's state comes from the
+	// checkpoint, so the pending temporary changes must be forgotten, not undone later
+	{name: "rbseektemp", rbseek: true, temp: true, weight: 2},
 }
 
 type c20Run struct {
@@ -755,6 +758,9 @@ func (q *c20Run) doRbSeek(t uint32) {
 		return
 	}
 	q.c.Inc("op_rollbackseek")
+	if q.tempActive {
+		q.c.Inc("op_rollbackseek_with_pending_temp")
+	}
 	var nl []c20Entry
 	for _, e := range q.log {
 		if e.H <= t {
